@@ -255,12 +255,14 @@ PROPS["C17"] = {
 
 RULES["C18"] = ("a plan of 2..64 goroutines, each assigned a drawn test (the fifteen registry tests through runner / byte entry point / bit entry point with a documented parameter, Round12, Round15) and one of 1..4 shared inputs "
                 "(1200..4000 bytes and their bit expansions; uniform, biased, markov, periodic, sparse), GOMAXPROCS in {2,4,16}. oracle: every task computed alone first, then once more (determinism, bit-identical), then all released from a barrier: "
-                "each concurrent result bit-identical to the solitary one, every input slice equal to its snapshot afterwards; the same check also runs in a -race binary (a race report is a violation). "
+                "each concurrent result bit-identical to the solitary one, every input slice equal to its snapshot afterwards; the same check also runs in a -race binary (a race report is a violation). Deterministic shards call every test x documented parameter x entry point 70000 times in a row (1.2 million thorough; more than a 16-bit / 20-bit counter holds), alternating between two inputs of different length: every result bit-identical to the first one for that input. One case in four uses the shortest admissible inputs (128..480 bits). "
                 "non-trivial: at least two goroutines share an input and at least two distinct tests run. distinct: hash of the case JSON.")
 PROPS["C18"] = {
     "level": "exploration",
-    "quick": shards(4, "TestC18", 60, floor=20) + shards(3, "TestC18", 25, race=True, floor=8, weight=3),
-    "thorough": shards(8, "TestC18", 4000, floor=1000, timeout=3400) + shards(6, "TestC18", 800, race=True, floor=200, weight=2, timeout=3400),
+    "quick": shards(4, "TestC18", 60, floor=20) + shards(3, "TestC18", 25, race=True, floor=8, weight=3)
+             + [S("TestC18ManyCalls", floor=5, env={"VERIF_PARTS": 4, "VERIF_PART": i}) for i in range(4)],
+    "thorough": shards(8, "TestC18", 4000, floor=1000, timeout=3400) + shards(6, "TestC18", 800, race=True, floor=200, weight=2, timeout=3400)
+             + [S("TestC18ManyCalls", floor=5, env={"VERIF_PARTS": 8, "VERIF_PART": i, "VERIF_CALLS": 1200000}, timeout=3400) for i in range(8)],
     "assumptions": ["interleavings are sampled (barrier release, GOMAXPROCS), not enumerated", "the race detector only sees races on executed paths"],
 }
 
